@@ -254,7 +254,7 @@ Definition ws_frame_part (c : ws_cfg) (s : ws_rstate) (datalen : Z) (avail : byt
         else if op =? 8 then (ws_set_closed keep, RNone, a1, [WClose 1000])
         else
           let size := ws_fsize h in
-          let mask := if fh_masked fh then take 4 (drop (2 + fh_ext fh) h) else w_mask s in
+          let mask := if fh_masked fh then take 4 (drop (2 + fh_ext fh) h) else [] in
           let zero := if size =? 0 then [WZero] else [] in
           if datalen <? size then
             (* COAP_EVENT_WS_PACKET_SIZE, close 1009; all_hdr_in and data_size stay set *)
@@ -354,3 +354,77 @@ Fixpoint ws_arrivals (c : ws_cfg) (s : ws_rstate) (arr : list bytes) : ws_rstate
       let '(s1, e1) := ws_pump (16 + 2 * length a) c s a in
       let '(s2, e2) := ws_arrivals c s1 tl in (s2, e1 ++ e2)
   end.
+
+(* ---- specification: a byte-at-a-time automaton, no buffers, no read sizes ----
+   It describes the repaired behaviour: a handshake line may hold at most
+   ws_http_buf - 2 = 158 bytes before its end of line. *)
+Inductive ws_mode :=
+| MHs (f : ws_flags) (line : bytes)                 (* handshake, bytes of the current line *)
+| MHdr (h : bytes)                                  (* frame header bytes so far *)
+| MBody (mask : bytes) (size : Z) (acc : bytes)     (* payload bytes (still masked) so far *)
+| MClosed.
+
+Definition ws_has_nul (l : bytes) : bool := existsb (fun b => b =? 0) l.
+
+Definition ws_hdr_done (c : ws_cfg) (h : bytes) : ws_mode * list ws_ev :=
+  let b0 := nth 0 h 0 in
+  let fh := ws_fh (nth 1 h 0) in
+  let op := b0 mod 16 in
+  if negb (op =? 2) && negb (op =? 8) then (MClosed, [WClose 1003])
+  else if op =? 8 then (MClosed, [WClose 1000])
+  else
+    let size := ws_fsize h in
+    let mask := if fh_masked fh then take 4 (drop (2 + fh_ext fh) h) else [] in
+    if wsc_rxbuf c <? size then (MClosed, [WClose 1009])
+    else if size =? 0 then (MHdr [], [WZero])
+    else (MBody mask size [], []).
+
+Definition ws_step (c : ws_cfg) (m : ws_mode) (b : Z) : ws_mode * list ws_ev :=
+  match m with
+  | MClosed => (MClosed, [])
+  | MHs f line =>
+      if (b =? 10) && negb (ws_has_nul line) then
+        match ws_process_line c f (ws_strip_cr line) with
+        | PFail => (MClosed, [WFail])
+        | PUp f' => (MHdr [], [WConnected])
+        | PNext f' => (MHs f' [], [])
+        end
+      else
+        let line' := line ++ [b] in
+        if ws_http_buf - 1 <=? len line' then (MClosed, [WFail]) else (MHs f line', [])
+  | MHdr h =>
+      let h' := h ++ [b] in
+      if len h' <? 2 then (MHdr h', [])
+      else
+        let fh := ws_fh (nth 1 h' 0) in
+        if wsc_server c && negb (fh_masked fh) then (MClosed, [WClose 1002])
+        else if len h' <? fh_hl fh then (MHdr h', [])
+        else ws_hdr_done c h'
+  | MBody mask size acc =>
+      let acc' := acc ++ [b] in
+      if len acc' =? size then (MHdr [], [WMsg (ws_unmask c mask acc')])
+      else (MBody mask size acc', [])
+  end.
+
+Fixpoint ws_run (c : ws_cfg) (m : ws_mode) (bs : bytes) : ws_mode * list ws_ev :=
+  match bs with
+  | [] => (m, [])
+  | b :: r =>
+      let '(m1, e1) := ws_step c m b in
+      let '(m2, e2) := ws_run c m1 r in
+      (m2, e1 ++ e2)
+  end.
+
+(* the reader state as (mode at the start of what it buffers, the buffered bytes) *)
+Definition ws_abs (s : ws_rstate) : ws_mode * bytes :=
+  if w_closed s then (MClosed, [])
+  else if negb (w_up s) then (MHs (w_flags s) [], w_http s)
+  else if w_allhdr s then (MBody (w_mask s) (w_dsize s) (w_data s), [])
+  else (MHdr [], w_rdh s).
+
+(* the mode of a reader that has processed everything it can (between two arrivals) *)
+Definition ws_mode_of (s : ws_rstate) : ws_mode :=
+  if w_closed s then MClosed
+  else if negb (w_up s) then MHs (w_flags s) (w_http s)
+  else if w_allhdr s then MBody (w_mask s) (w_dsize s) (w_data s)
+  else MHdr (w_rdh s).
